@@ -1045,10 +1045,12 @@ package gmars
 //@     decreases len(c.lines) - rangeindex
 // graph.go: the reference graph of the EQU table (range over maps: the loop body sees some key of the map, in no
 // particular order; such loops carry invariants but no termination claim)
+//@ pure graphOK(graph map[string][]string, values map[string][]token) = forall k: Str, j :: has(graph, k) && 0 <= j && j < len(graph[k]) ==> has(values, graph[k][j])
 //@ func buildReferenceGraph
 //@   panics [C05][C07]
 //@   modifies nothing
 //@   ensures fresh(result)
+//@   ensures [C07][C14] graphOK(result, values)
 //@   loop 1
 //@     invariant graph != nil && fresh(graph)
 // an entry lists only symbols of the table
@@ -1078,6 +1080,9 @@ package gmars
 //@   panics [C05][C07][C14]
 //@   modifies nothing
 //@   ensures result.1 == nil ==> valsAllocated(result.0)
+// resolving the table cannot fail when the graph lists only symbols of the table: whether it succeeds does not depend
+// on the order in which the map iteration presents the keys (C14)
+//@   ensures [C07][C14] graphOK(graph, values) ==> result.1 == nil
 //@   loop 1
 //@     invariant resolved != nil && fresh(resolved) && valsAllocated(resolved)
 // expandValue resolves one symbol after every symbol it depends on; a symbol resolved once stays resolved. That all
@@ -1088,6 +1093,8 @@ package gmars
 //@   requires resolved != nil && valsAllocated(resolved)
 //@   modifies resolved[*]
 //@   ensures [C07][C14] result.1 == nil ==> has(resolved, key)
+// the only failure is a key outside the table
+//@   ensures [C07][C14] has(values, key) && graphOK(graph, values) ==> result.1 == nil
 //@   ensures valsAllocated(resolved) && allocated(arr(result.0))
 //@   ensures [C14] forall k: Str :: old(has(resolved, k)) ==> has(resolved, k)
 //@   loop 1
